@@ -7,7 +7,9 @@ MANIFEST = dict(
          "MemoryKVVStore, RedbKVVStore (table + versions cache, reopen, poisoned cache mutex) and "
          "CloudKVVStore<MemoryKVVStore> (local store + commit log): version monotonicity by induction over histories; "
          "same-version-other-content and lower versions refused (single writes and batch entries); batch atomicity; "
-         "get / get_prefix return the last accepted write; the disk store simulates the memory store request by request "
+         "get / get_prefix return the last accepted write; the restore path put_batch_unlogged keeps every record of an accepted list "
+         "(tombstones included) so that an older copy served later is refused, also across restarts of a disk-backed "
+         "cloud store; the disk store simulates the memory store request by request "
          "(invariant cache = versions of table) and reopen is the identity; cloud: local store changes only by commit, "
          "read-your-writes, visible versions never lowered, commit writes exactly the standing report.  The models are "
          "run against the three real stores on identical request sequences on every run (breadth-first over a small "
@@ -32,7 +34,9 @@ PINNED = [
     "C16_cloud_local_changes_only_by_commit", "C16_cloud_version_never_lowered",
     "C16_cloud_local_version_never_lowered", "C16_cloud_read_your_writes",
     "C16_cloud_commit_writes_the_log", "C16_cloud_committed_is_reported",
-    "C16_nonvacuous_plain", "C16_nonvacuous_cloud",
+    "C16_restore_records_kept", "C16_restore_replay_refused", "C16_plain_restore_replay_refused",
+    "C16_cloud_restart_local_version_never_lowered",
+    "C16_nonvacuous_plain", "C16_nonvacuous_cloud", "C16_nonvacuous_restore",
 ]
 
 # the one class of behaviour that may be listed in KNOWN_FINDINGS.json (id below): a commit reached
@@ -44,6 +48,12 @@ WHAT = {
     "committed-differs-from-reported": "commit changed the local store by something other than the mutations prepare reported",
     "backends-disagree": "MemoryKVVStore and RedbKVVStore answered the same request sequence differently",
     "cloud-read-your-writes": "a transaction did not read back its own accepted write",
+    "restore-record-missing": "put_batch_unlogged accepted a record list but the local store does not hold every record of it "
+                              "(a dropped tombstone forgets the key's version)",
+    "restore-replay-accepted": "put_batch_unlogged accepted a record below a version it had restored for that key before: "
+                               "the key's version went down (replay of an older copy)",
+    "write-below-restored-version": "a write below a version restored earlier by put_batch_unlogged was accepted",
+    "restart-changed-local-store": "the local store of the disk-backed cloud store changed across a restart",
 }
 
 
@@ -88,7 +98,7 @@ def run(res):
             c = cases[i]
             diag = lib.coq_eval(imports, "diag_kvv (%s)" % c["coq"], "c16_diag")
             model = lib.coq_eval(imports, "kvv_model (%s)" % c["coq"], "c16_show")
-            res.violation("a real store disagrees with Model.Kvv (correspondence kvv; diag = memory, redb, cloud agree?)",
+            res.violation("a real store disagrees with Model.Kvv (correspondence kvv; diag = memory, redb, cloud on memory, cloud on redb agree?)",
                           {"correspondence": "kvv", "seed": res.seed, "case_id": c["id"], "generator": c["gen"],
                            "requests": c["ops"], "n_alternatives": c["n_alts"], "observed": c.get("rows"),
                            "diag": diag[-200:], "model": model[-6000:]}, has_input=False)
@@ -103,7 +113,7 @@ def run(res):
         "evaluations": len(cases),
         "distinct_nontrivial": len(distinct),
         "rule": "each case = one request sequence run on the real MemoryKVVStore, RedbKVVStore (temp dir, reopen = drop + "
-                "open) and CloudKVVStore<MemoryKVVStore>, every answer and the full get_prefix(\"\") dump after every "
+                "open), CloudKVVStore<MemoryKVVStore> and CloudKVVStore<RedbKVVStore> (reopen = signer restart), every answer and the full get_prefix(\"\") dump after every "
                 "request compared with the model, plus get_version of all keys on redb and get of all keys inside a cloud "
                 "transaction. corpus: past disagreements and the witnesses of Props/C16.v; exhaustive: breadth-first from "
                 "3 roots over an alphabet of put/delete/put_with_version (keys a, a/b, b; versions 0..3; values x, y, "
@@ -111,7 +121,10 @@ def run(res):
                 "states de-duplicated on everything visible, every (state, request) pair run (one case per state: common "
                 "prefix + all alternatives); random: transaction-shaped histories with versions steered to current-1..+2 "
                 "and 2^32, 2^63, 2^64-2, 2^64-1, reopen points, off-protocol steps; malformed: unstructured requests, "
-                "non-ASCII / empty / reserved keys. non-trivial: an accepted write and (a refusal, or a commit that "
+                "non-ASCII / empty / reserved keys; restore: start-up shaped histories - put_batch_unlogged lists with tombstones "
+                "for keys the replica never saw, restarts, then lists and writes at older / equal / newer versions; a "
+                "fourth store, CloudKVVStore<RedbKVVStore> restarted at every reopen point, runs every sequence too. "
+                "non-trivial: an accepted write and (a refusal, or a commit that "
                 "changed the local store, or a reopen of a non-empty store); distinct by full case term",
         "samples": [{k: v for k, v in c.items() if k not in ("coq", "alts")} for c in cases[:1] + cases[-1:]],
         "traces_validated_against_impl": len(cases),
@@ -134,7 +147,8 @@ def run(res):
         "monitor_findings_by_kind": stats.get("monitor_findings"),
         "profile": stats.get("profile"),
         "harness_stats": {k: stats.get(k) for k in ("cases", "corpus", "exhaustive_cases", "random", "nontrivial",
-                                                    "with_effective_commit", "with_reopen_after_write")},
+                                                    "with_effective_commit", "with_reopen_after_write",
+                                                    "with_tombstone_restore", "with_refused_replay")},
     })
     res.assumptions = [
         "redb is a sorted map with atomic write transactions (begin_write / insert / commit / abort) - a parameter of the model, exercised through the real crate",
